@@ -188,7 +188,7 @@ def render_objects(frame, rendering, ego):
 
     if rendering.endswith(":derived"):
         e_, g_ = render_objects(frame, rendering.split(":")[0], ego)
-        return [derive(o) for o in e_], [derive(o) for o in g_]
+        return [derive(o) for o in e_], [derive(o, 1) for o in g_]
     fr = "map" if rendering == "map" else "base_link"
     ests, gts = [], []
     for i, e in enumerate(frame["ests"]):
